@@ -95,6 +95,7 @@ func (o *Operations) Move(from string, to string) error {
 		}
 
 		hdr.Size = 0 // Don't try to seek after the record
+		hdr.Format = tar.FormatPAX // The header may stem from a foreign archive in another format, which can't carry our records
 		hdr.Name = path.Join(to, strings.TrimPrefix(strings.TrimPrefix(dbhdr.Name, "/"), strings.TrimPrefix(from, "/")))
 		delete(hdr.PAXRecords, records.STFSRecordReplacesContent) // A move never carries content, even if the last update of the entry did
 		hdr.PAXRecords[records.STFSRecordVersion] = records.STFSRecordVersion1
